@@ -479,7 +479,7 @@ pub fn def() -> CheckDef {
             // the same iff-oracle as a monitor on every suspicion timeout (genuine, duplicated, stale, crafted)
             // delivered in the shared adversarial histories, the chaos pool and the exhaustive short histories
             Batch { scenario: &crate::checks::histchecks::H11, quick: 40_000, thorough: 3_000_000 },
-            Batch { scenario: crate::checks::histchecks::chaos_for("C11"), quick: 2_000, thorough: 150_000 },
+            Batch { scenario: crate::checks::histchecks::chaos_for("C11"), quick: 6_000, thorough: 150_000 },
             Batch { scenario: crate::checks::histchecks::exhaustive_for("C11"), quick: 0, thorough: 0 },
         ],
         extra: None,
